@@ -89,7 +89,7 @@ class Session:
             return 'message'
         return '%d|%s' % (self.seq, gen.gen_event_name(self.rng))
 
-    def one(self, direction=None, mode=None, burst_member=False):
+    def one(self, direction=None, mode=None, burst_member=False, ns=None):
         rng, b, ctx = self.rng, self.b, self.ctx
         direction = direction or rng.choice(['c2s', 's2c'])
         mode = mode or rng.choice(['emit', 'emit', 'emit_cb', 'call',
@@ -97,7 +97,7 @@ class Session:
         if mode == 'call' and direction == 's2c' and \
                 not self.async_handlers:
             mode = 'emit_cb'
-        ns = rng.choice(NSS)
+        ns = ns or rng.choice(NSS)
         data = self.payload()
         ret = self.payload() if mode in ('emit_cb', 'call') or \
             rng.random() < 0.3 else None
@@ -405,12 +405,173 @@ class Session:
         self.sids = {ns: b.h.c.get_sid(ns) for ns in NSS}
         ctx.count('reconnects_after_partial_message')
 
+    def nested(self):
+        """asyncio pairing: the handler of a call() asks the caller
+        something with call() before it answers, and returns what it got.
+        The inner acknowledgement is handled by another task while the
+        handler's task waits."""
+        rng, b, ctx = self.rng, self.b, self.ctx
+        direction = rng.choice(['c2s', 's2c'])   # of the outer call
+        ns, ns2 = rng.choice(NSS), rng.choice(NSS)
+        outer, inner = self.new_name(), self.new_name()
+        data, inner_data, inner_ret = self.payload(), self.payload(), \
+            self.payload()
+        self.rets[inner] = inner_ret
+        n0 = len(self.records)
+        self.history.append({'nested': [outer, inner], 'dir': direction,
+                             'ns': [ns, ns2], 'data': data,
+                             'inner_data': inner_data, 'inner_ret':
+                             inner_ret})
+        if direction == 's2c':
+            async def h(*args):
+                self.records.append(('client', ns, outer, list(args), None))
+                return await b.h.c.call(inner, inner_data, namespace=ns2,
+                                        timeout=60)
+            b.h.c.on(outer, h, namespace=ns)
+        else:
+            async def h(sid, *args):
+                self.records.append(('server', ns, outer, list(args), sid))
+                return await b.d.sio.call(inner, inner_data,
+                                          to=self.sids[ns2], namespace=ns2,
+                                          timeout=60)
+            b.d.sio.on(outer, h, namespace=ns)
+        try:
+            if direction == 's2c':
+                result = b.server('call', outer, data, to=self.sids[ns],
+                                  namespace=ns, timeout=120)
+            else:
+                result = b.client('call', outer, data, namespace=ns,
+                                  timeout=120)
+        except Exception as e:
+            return self.fail('call() whose handler asks the caller something '
+                             'before it answers raised %r / errors %r' % (
+                                 e, [x.get('exc') for x in b.errors()[:2]]))
+        if b.errors():
+            return self.fail('errors during a nested call: %r' % [
+                e.get('exc') for e in b.errors()[:2]])
+        ctx.count('nested_calls_judged_asyncio')
+        new = self.records[n0:]
+        sides = ('client', 'server') if direction == 's2c' else \
+            ('server', 'client')
+        want_new = [(sides[0], ns, outer, gen.expected_args(data)),
+                    (sides[1], ns2, inner, gen.expected_args(inner_data))]
+        if len(new) != 2 or any(
+                r[:3] != w[:3] or not R.deep_eq(r[3], w[3])
+                for r, w in zip(new, want_new)):
+            return self.fail('nested call: handlers were invoked as %r, '
+                             'expected %r' % ([r[:4] for r in new],
+                                              want_new))
+        want = shape_result(gen.expected_args(inner_ret))
+        if not R.deep_eq(result, want) or (
+                isinstance(want, tuple) and not isinstance(result, tuple)):
+            return self.fail('call() whose handler returns the result of '
+                             'its own call() returned %r; the inner handler '
+                             'returned %r' % (result, inner_ret))
+        ctx.case((self.cfg, 'nested', direction, ns == ns2,
+                  gen.shape(inner_ret)), None)
+
+    def sibling_namespace_ends_while_outstanding(self):
+        """Last step of a session: the client has an emit-with-callback (or
+        a call()) outstanding on one namespace when the server disconnects
+        another namespace of the same client; the answer arrives afterwards.
+        The callback still gets what the handler returned, and the surviving
+        namespace keeps working."""
+        import asyncio
+        from vlib.drive import Delay
+        rng, b, ctx = self.rng, self.b, self.ctx
+        ns_end, ns = rng.sample(NSS, 2)
+        name = self.new_name()
+        data, ret = self.payload(), self.payload()
+        mode = rng.choice(['emit_cb', 'call']) if b.is_async else 'emit_cb'
+        self.history.append({'sibling_namespace_ends': ns_end, 'ns': ns,
+                             'name': name, 'mode': mode, 'data': data,
+                             'ret': ret})
+        n0 = len(self.records)
+        got = []
+        out = {}
+        try:
+            if b.is_async:
+                self.rets[name] = Delay(ret, 3)
+
+                async def go():
+                    task = None
+                    if mode == 'call':
+                        task = asyncio.ensure_future(b.h.c.call(
+                            name, data, namespace=ns, timeout=60))
+                    else:
+                        await b.h.c.emit(name, data, namespace=ns,
+                                         callback=lambda *a: got.append(a))
+                    await asyncio.sleep(1)
+                    await b.d.sio.disconnect(self.sids[ns_end],
+                                             namespace=ns_end)
+                    await asyncio.sleep(4)
+                    if task is not None:
+                        try:
+                            out['result'] = ('ok', await task)
+                        except Exception as e:
+                            out['result'] = (type(e).__name__, None)
+                b.run(go(), horizon=30)
+            else:
+                self.rets[name] = ret
+                b.d.hold_tasks()
+                try:
+                    b.h.c.emit(name, data, namespace=ns,
+                               callback=lambda *a: got.append(a))
+                    b.h.pump()
+                    b.d.sio.disconnect(self.sids[ns_end], namespace=ns_end)
+                    b.pump()
+                finally:
+                    b.d.release_tasks()
+                b.pump()
+        except Exception as e:
+            return self.fail('sibling namespace ended while an '
+                             'acknowledgement was outstanding: raised %r'
+                             % e)
+        if b.errors():
+            return self.fail('errors when a sibling namespace ended: %r' % [
+                e.get('exc') for e in b.errors()[:2]])
+        self.rets[name] = None
+        new = [r for r in self.records[n0:] if r[2] == name]
+        ctx.count('acks_outstanding_when_sibling_namespace_ended')
+        if len(new) != 1 or not R.deep_eq(new[0][3],
+                                          gen.expected_args(data)):
+            return self.fail('%d handler invocations (%r) for one message'
+                             % (len(new), [r[3] for r in new]))
+        want_cb = gen.expected_args(ret)
+        if mode == 'emit_cb':
+            if len(got) != 1 or not R.deep_eq(list(got[0]), want_cb):
+                return self.fail(
+                    'an emit on %r was waiting for its acknowledgement when '
+                    'the server disconnected namespace %r of the same '
+                    'client: the callback was invoked %d times (%r), the '
+                    'handler returned %r' % (ns, ns_end, len(got), got[:2],
+                                             ret))
+        else:
+            want = shape_result(want_cb)
+            r = out.get('result')
+            if not r or r[0] != 'ok' or not R.deep_eq(r[1], want):
+                return self.fail(
+                    'a call() on %r was outstanding when the server '
+                    'disconnected namespace %r of the same client: it ended '
+                    'with %r, the handler returned %r' % (ns, ns_end, r,
+                                                          ret))
+        # the surviving namespace still works, both directions
+        for direction in ('c2s', 's2c'):
+            self.one(direction=direction,
+                     mode=rng.choice(['emit', 'emit_cb']), ns=ns)
+            if self.failed:
+                return
+        ctx.case((self.cfg, 'sibling_namespace_ends', mode, ns), None)
+
     def run(self):
         rng = self.rng
         for _ in range(rng.choice([20, 40])):
             if self.b.is_async and self.co and self.async_handlers and \
                     rng.random() < 0.04:
                 self.late_ack_after_call_timeout()
+            elif self.b.is_async and self.async_handlers and \
+                    rng.random() < 0.05:
+                self.nested()
             elif self.cfg[1] == 'default' and rng.random() < 0.03:
                 self.reconnect_after_partial()
             elif self.b.is_async and self.co and rng.random() < 0.06:
@@ -419,6 +580,12 @@ class Session:
                 self.burst()
             else:
                 self.one()
+            if self.failed:
+                return
+        if rng.random() < 0.3 and (
+                (self.b.is_async and self.co) or
+                (not self.b.is_async and self.async_handlers)):
+            self.sibling_namespace_ends_while_outstanding()
             if self.failed:
                 return
         b = self.b
@@ -476,6 +643,13 @@ def run(ctx):
     from checks import c02_tcp
     ctx.require('tcp_messages_judged', 10)
     share = (ctx.budget or 40) * 0.12
+    # handlers that wait for an acknowledgement themselves (threads under the
+    # controlled scheduler)
+    from checks import c02_nested
+    ctx.require('nested_calls_judged', 20)
+    ctx.require('nested_calls_judged_asyncio', 10)
+    ctx.require('acks_outstanding_when_sibling_namespace_ended', 10)
+    c02_nested.run_part(ctx, share)
     k = ctx.shard * 8
     while ctx.time_left() > share and not ctx.too_many_violations():
         run_case(ctx, k)
@@ -488,6 +662,9 @@ def run(ctx):
 
 
 def replay(ctx, w):
+    if w['witness'].get('part') == 'nested_call':
+        from checks import c02_nested
+        return c02_nested.replay(ctx, w)
     if w['witness'].get('part') == 'tcp':
         from checks import c02_tcp
         return c02_tcp.replay(ctx, w)
